@@ -50,6 +50,22 @@ func init() {
 			}
 			return nil
 		},
+		"verifPar": func(x *Exec, fn *ssa.Function, a []Value) Value {
+			pre := 2
+			if t := asTerm(a[2]); t.IsConst() {
+				pre = int(t.Int64())
+			}
+			if x.logEvents {
+				x.events = append(x.events, AccessEvent{Sync: "mark:par-begin"})
+			}
+			x.runPar([]Value{a[0], a[1]}, pre)
+			if x.logEvents {
+				x.events = append(x.events, AccessEvent{Sync: "mark:par-end"})
+			}
+			return nil
+		},
+		"verifGoldenList":   func(x *Exec, fn *ssa.Function, a []Value) Value { return SliceV{Off: BVi(0, 64), Len: BVi(0, 64), Cap: BVi(0, 64)} },
+		"verifStressRounds": func(x *Exec, fn *ssa.Function, a []Value) Value { return BVi(0, 64) },
 		"verifVerdict":       nil, // executed from SSA
 	}
 	delete(verifPrims, "verifVerdict")
